@@ -71,6 +71,15 @@ def functions(tree):
     return out
 
 
+def tstr(t):
+    """Type as text, with a C-contiguous 1-D memoryview (`T[::1]`) written like the general one (`T[:]`): contiguity does
+    not matter to the bounds, schema and decision-table analyses (R-C09-raw looks at the raw type)."""
+    s = str(t)
+    if s.endswith("[::1]"):
+        s = s[:-5] + "[:]"
+    return s
+
+
 def tname(n):
     return type(n).__name__
 
